@@ -147,7 +147,7 @@ class Result:
         if 'runtime error:' in err:
             m = re.search(r'([\w./-]+\.c):(\d+):\d+: runtime error: (.*)', err)
             if m:
-                return '%s:%s' % (os.path.basename(m.group(1)), m.group(3)[:60])
+                return '%s:%s' % (os.path.basename(m.group(1)), re.sub(r'-?\d+', 'N', m.group(3))[:70].replace(' ', '_'))
         for line in err.splitlines():
             m = re.search(r'#\d+ 0x[0-9a-f]+ in (\w+) .*?/(lib/src|src)/([\w.]+):(\d+)', line)
             if m:
